@@ -155,3 +155,10 @@ func vRunReplay(name string, h func()) {
 	}()
 	h()
 }
+
+func vTier() int {
+	if os.Getenv("VERIF_TIER") == "thorough" {
+		return 1
+	}
+	return 0
+}
